@@ -245,8 +245,10 @@ def run_tls_strays(ctx: Ctx, rec: Recorder) -> None:
     certs = tlsnet.Certs()
     try:
         for max_tls in (None, ssl.TLSVersion.TLSv1_2):
-            for kind in ("response", "garbage"):
+            for kind in ("response", "garbage", "same-record"):
                 for method in ("GET", "HEAD"):
+                    if kind == "same-record" and method == "HEAD":
+                        continue
                     for retries in (False, 2):
                         case = {"tls_stray": kind, "max_tls": str(max_tls), "method": method, "retries": retries}
                         rec.case(["tls-stray", kind, str(max_tls), method, retries])
@@ -283,6 +285,9 @@ def run_tls_strays(ctx: Ctx, rec: Recorder) -> None:
                                 continue
                             pool.close()
                             net.wait_quiet(1.5)
+                        if kind == "same-record" and out and not out[0][1].startswith(b"origin:/stray/1"):
+                            rec.fail(case, "foreign-bytes-delivered", {"rid": "stray/1", "got": out[0][1][:40], "tls": True}, "the padded first response was not delivered intact")
+                            continue
                         for i, (st, data) in zip((2, 3), out[1:]):
                             if st == "urllib3-error":
                                 continue
